@@ -570,7 +570,27 @@ def spec_ok(c, i, s):
                 if got is None or norm(got) != want:
                     return False
         return True
-    return compare(c, i, s)
+    ci, cs = canon(iv), canon(sv)
+    if ci == cs:
+        return True
+    # which stream did not get the answer of its own request?
+    try:
+        if ci[1] and ci[1][0][0] == "N":
+            c.meta["why"] = "the burst failed: " + kv.pretty(iv, 300)
+        else:
+            for a, b in zip(ci[1], cs[1]):
+                if a != b:
+                    wa, wb = wire(a[1][1]), wire(b[1][1])
+                    if norm(wa) == norm(wb):
+                        c.meta["why"] = ("stream %d: the connection-level part of the answer differs from the specification: %r vs %r"
+                                         % (a[1][0][1], wa, wb))[:1500]
+                        break
+                    c.meta["why"] = ("stream %d (request %s) received %r; its own request alone is answered %r"
+                                     % (a[1][0][1], kv.pretty(c.x[1][1][1][1][1][a[1][0][1] - 1], 80), norm(wa), norm(wb)))[:1500]
+                    break
+    except Exception:
+        pass
+    return False
 
 
 def extra_oracle(c, i):
